@@ -93,7 +93,7 @@ def ckbv(binname, args, timeout=1800, env=None, stdin=None):
     return rc, out
 
 
-COV_RE = re.compile(r"^<(\w+) line \d+, col \d+ to line \d+, col \d+ of module (\w+)>: (\d+):(\d+)", re.M)
+COV_RE = re.compile(r"^<(\w+) line \d+, col \d+ to line \d+, col \d+ of module (\w+)(?: \([\d ]+\))?>: (\d+):(\d+)", re.M)
 STATES_RE = re.compile(r"(\d+) states generated, (\d+) distinct states found, (\d+) states left on queue")
 SIM_RE = re.compile(r"(\d+) states checked")  # simulation mode summary
 
